@@ -145,4 +145,179 @@ example : ∃ fs, dumps startFixed 2 3 = some (fs, ⟨2, 2, 3⟩) ∧ fs .dump =
   obtain ⟨fs, h, hd, hb⟩ := after_k_dumps 2 3
   exact ⟨fs, h, by simpa using hd, by simpa using hb 0, by simpa using hb 1, by simpa using hb 2⟩
 
+/-! ## Histories with restarts (the process is stopped and started again with `--restart`) -/
+
+/-- what every reachable directory satisfies: `nb ≤ maxB`, a manager that has not dumped yet has
+no backups on its books, the first `nb` backup files exist, and once this process has dumped the
+main file is complete -/
+def HInv (st : FS × RM) : Prop :=
+  st.2.nb ≤ st.2.maxB ∧ (st.2.nr = 0 → st.2.nb = 0) ∧ (∀ j, j < st.2.nb → st.1 (.back j) ≠ none) ∧
+  (0 < st.2.nr → ∃ v, st.1 .dump = some ⟨v, true⟩)
+
+/-- **A dump started from any directory that satisfies `HInv` never aborts**, leaves the new
+state complete in the main file and re-establishes `HInv`. -/
+theorem dump_from_inv (fs : FS) (rm : RM) (v : Nat) (h : HInv (fs, rm)) :
+    ∃ fs', execAll fs (dumpOps startFixed rm v).1 = some fs' ∧ fs' .dump = some ⟨v, true⟩ ∧
+      HInv (fs', (dumpOps startFixed rm v).2) := by
+  obtain ⟨hle, h0, hb, hd⟩ := h
+  simp only at hle h0 hb hd
+  by_cases hm : rm.maxB > 0
+  · by_cases hr : rm.nr > 0
+    · obtain ⟨u, hu⟩ := hd hr
+      have hne : ∀ j, j < startFixed rm.maxB rm.nb → fs (.back j) ≠ none := by
+        intro j hj; apply hb; unfold startFixed at hj; omega_min
+      have hsd : (shifted fs (startFixed rm.maxB rm.nb)) .dump = some ⟨u, true⟩ := by
+        simp only [shifted, hu]
+      simp only [dumpOps, hm, hr, ↓reduceIte, List.append_assoc]
+      rw [shift_exec _ fs _ hne]
+      simp only [List.cons_append, List.nil_append, execAll, exec, hsd]
+      refine ⟨_, rfl, ?_, ?_⟩
+      · simp [FS.set]
+      · refine ⟨?_, ?_, ?_, ?_⟩
+        · simp only; split_ifs <;> omega
+        · simp only; intro h; omega
+        · intro j hj
+          simp only at hj
+          simp only [FS.set, reduceCtorEq, if_false, Name.back.injEq]
+          by_cases hj0 : j = 0
+          · subst hj0; simp
+          · have hjs : j ≤ startFixed rm.maxB rm.nb := by
+              unfold startFixed; split_ifs at hj <;> omega_min
+            have hjm : j - 1 < rm.nb := by unfold startFixed at hjs; omega_min
+            simp only [hj0, if_false, shifted, hjs, if_true]
+            exact hb _ hjm
+        · intro _; exact ⟨v, by simp [FS.set]⟩
+    · have hr0 : rm.nr = 0 := by omega
+      have hnb := h0 hr0
+      simp only [dumpOps, hm, hr, ↓reduceIte, List.append_nil, hnb, startFixed, Nat.min_zero,
+        shiftOps, List.nil_append, execAll, exec]
+      refine ⟨_, rfl, ?_, ?_⟩
+      · simp [FS.set]
+      · refine ⟨?_, ?_, ?_, ?_⟩
+        · simp only; split_ifs <;> omega
+        · simp only; intro h; omega
+        · intro j hj; simp only [hr, and_false, false_and, if_false] at hj; omega
+        · intro _; exact ⟨v, by simp [FS.set]⟩
+  · have hm0 : rm.maxB = 0 := by omega
+    have hnb : rm.nb = 0 := by omega
+    simp only [dumpOps, hm, ↓reduceIte, List.nil_append, execAll, exec]
+    refine ⟨_, rfl, ?_, ?_⟩
+    · simp [FS.set]
+    · refine ⟨?_, ?_, ?_, ?_⟩
+      · simp only; split_ifs <;> omega
+      · simp only; intro h; omega
+      · intro j hj; simp only [hm, false_and, if_false] at hj; omega
+      · intro _; exact ⟨v, by simp [FS.set]⟩
+
+/-- `HInv` holds initially, and a restart keeps it (fresh manager, same files) -/
+theorem hstep_inv (st : FS × RM) (o : HOp) (h : HInv st) : ∃ st', hstep st o = some st' ∧ HInv st' := by
+  cases o with
+  | dump v =>
+    obtain ⟨fs', he, _, hi⟩ := dump_from_inv st.1 st.2 v h
+    exact ⟨(fs', (dumpOps startFixed st.2 v).2), by simp [hstep, he], hi⟩
+  | reboot =>
+    refine ⟨(st.1, RM.fresh st.2.maxB), rfl, ?_⟩
+    simp [HInv, RM.fresh]
+
+/-- **Every history of dumps and restarts runs to its end** (no dump ever aborts on a failed
+rename), for every number of configured backups. -/
+theorem history_never_aborts (n : Nat) (hist : List HOp) :
+    ∃ st, hrun (FS.empty, RM.fresh n) hist = some st ∧ HInv st := by
+  have gen : ∀ (hist : List HOp) (st : FS × RM), HInv st → ∃ st', hrun st hist = some st' ∧ HInv st' := by
+    intro hist
+    induction hist with
+    | nil => intro st h; exact ⟨st, rfl, h⟩
+    | cons o os ih =>
+      intro st h
+      obtain ⟨st1, h1, hi1⟩ := hstep_inv st o h
+      obtain ⟨st2, h2, hi2⟩ := ih st1 hi1
+      exact ⟨st2, by simp [hrun, h1, h2], hi2⟩
+  exact gen hist _ (by simp [HInv, RM.fresh])
+
+/-- … and **the newest state is in the main dump file, complete**, after any history that ends
+with a dump -/
+theorem history_newest_in_dump (n : Nat) (hist : List HOp) (v : Nat) :
+    ∃ st, hrun (FS.empty, RM.fresh n) (hist ++ [.dump v]) = some st ∧ st.1 .dump = some ⟨v, true⟩ := by
+  obtain ⟨st, hs, hi⟩ := history_never_aborts n hist
+  obtain ⟨fs', he, hd, _⟩ := dump_from_inv st.1 st.2 v hi
+  have happ : ∀ (l : List HOp) (a b : FS × RM), hrun a l = some b →
+      hrun a (l ++ [.dump v]) = hstep b (.dump v) := by
+    intro l
+    induction l with
+    | nil => intro a b h; simp only [hrun] at h; cases h; simp only [List.nil_append, hrun]; cases hstep a (.dump v) <;> rfl
+    | cons o os ih =>
+      intro a b h
+      simp only [hrun] at h
+      cases ho : hstep a o with
+      | none => simp [ho] at h
+      | some a' => simp only [ho] at h; simp only [List.cons_append, hrun, ho]; exact ih a' b h
+  refine ⟨(fs', (dumpOps startFixed st.2 v).2), ?_, hd⟩
+  rw [happ hist _ st hs]
+  simp [hstep, he]
+
+/-- **Crash safety in every history**: in ANY reachable directory (any mix of dumps and
+restarts before), if at least one backup is configured and THIS process has dumped before
+(`nr > 0`), then whatever prefix of the next dump's operations was executed when the process
+died, the complete previous dump `u` is still on disk (main file or first backup). -/
+theorem crash_safe_history (st : FS × RM) (h : HInv st) (hn : 0 < st.2.maxB) (hr : 0 < st.2.nr)
+    (u : Nat) (hu : st.1 .dump = some ⟨u, true⟩) (v : Nat) :
+    ∀ fs' ∈ prefixes st.1 (dumpOps startFixed st.2 v).1,
+      fs' .dump = some ⟨u, true⟩ ∨ fs' (.back 0) = some ⟨u, true⟩ := by
+  obtain ⟨fs, rm⟩ := st
+  obtain ⟨hle, h0, hb, _⟩ := h
+  simp only at hle h0 hb hn hr hu
+  intro fs' hfs'
+  have hm : rm.maxB > 0 := hn
+  simp only [dumpOps, hm, hr, ↓reduceIte, List.append_assoc] at hfs'
+  have hne : ∀ j, j < startFixed rm.maxB rm.nb → fs (.back j) ≠ none := by
+    intro j hj; apply hb; unfold startFixed at hj; omega_min
+  rcases shift_prefixes _ fs _ hne fs' hfs' with hd | hp
+  · left; rw [hd, hu]
+  · have hdump' : (shifted fs (startFixed rm.maxB rm.nb)) .dump = some ⟨u, true⟩ := by
+      simp only [shifted, hu]
+    simp only [List.cons_append, List.nil_append, prefixes, exec, hdump', List.mem_cons,
+      List.not_mem_nil, or_false] at hp
+    rcases hp with rfl | rfl | rfl | rfl | rfl
+    · left; exact hdump'
+    all_goals (right; simp [FS.set])
+
+/-- the FIRST dump of a restarted process is different (recorded finding
+`rotation:previous-dump-lost-in-crash-of-restarted-process`): the fresh manager does not move
+the dump file it was restarted from out of the way, so after `dump 1; dump 2; restart` a crash
+right after the truncating open of dump 3 leaves no complete copy of state 2 — only the older
+backup of state 1 survives. -/
+theorem restarted_first_dump_not_crash_safe (st : FS × RM)
+    (hs : hrun (FS.empty, RM.fresh 1) [.dump 1, .dump 2, .reboot] = some st) :
+    st.1 .dump = some ⟨2, true⟩ ∧
+      ∃ fs' ∈ prefixes st.1 (dumpOps startFixed st.2 3).1,
+        (∀ nm, fs' nm ≠ some ⟨2, true⟩) ∧ fs' (.back 0) = some ⟨1, true⟩ := by
+  obtain ⟨fs, rm⟩ := st
+  simp [hrun, hstep, dumpOps, startFixed, RM.fresh, shiftOps, execAll, exec, FS.set] at hs
+  obtain ⟨hfs, hrm⟩ := hs
+  have hd : fs .dump = some ⟨2, true⟩ := by rw [← hfs]; simp [FS.set]
+  have hb0 : fs (.back 0) = some ⟨1, true⟩ := by rw [← hfs]; simp [FS.set]
+  have hbi : ∀ i, i ≠ 0 → fs (.back i) = none := by
+    intro i hi; rw [← hfs]; simp [FS.set, FS.empty, hi]
+  refine ⟨hd, fs.set .dump (some ⟨0, false⟩), ?_, ?_, ?_⟩
+  · rw [← hrm]
+    simp [dumpOps, startFixed, shiftOps, prefixes, exec]
+  · intro nm
+    cases nm with
+    | dump => simp [FS.set]
+    | back i =>
+      by_cases hi : i = 0
+      · subst hi; simp [FS.set, hb0]
+      · simp [FS.set, hbi i hi]
+  · simp [FS.set, hb0]
+
+/-- non-vacuity of `crash_safe_history`: the directory after `dump 1; restart; dump 2` with one
+backup satisfies all its hypotheses -/
+example : ∃ st, hrun (FS.empty, RM.fresh 1) [.dump 1, .reboot, .dump 2] = some st ∧ HInv st ∧
+    0 < st.2.maxB ∧ 0 < st.2.nr ∧ st.1 .dump = some ⟨2, true⟩ := by
+  obtain ⟨st, hs, hi⟩ := history_never_aborts 1 [.dump 1, .reboot, .dump 2]
+  refine ⟨st, hs, hi, ?_⟩
+  simp only [hrun, hstep, dumpOps, startFixed, RM.fresh, shiftOps, execAll, exec, Option.map] at hs
+  cases hs
+  simp [FS.set]
+
 end CMacVerif.Rotation
